@@ -62,7 +62,20 @@ def sp_forall(ex, e, st, exists=False):
     body = _bool(ex.ev(lam.body, t))
     if exists:
         return z3.Exists(vs, z3.And(*guard, body))
-    return z3.ForAll(vs, z3.Implies(z3.And(*guard), body) if guard else body)
+    pats = []
+    if len(e.args) >= 4 and isinstance(e.args[3], ast.Lambda):      # forall(lambda v: .., lo, hi, lambda v: <trigger term>)
+        trig = e.args[3]
+        tt = st.clone()
+        for n, v in zip([a.arg for a in trig.args.args], vs):
+            tt.env[n] = v
+        tv = ex.ev(trig.body, tt)
+        tv = tv.items if isinstance(tv, Tup) else [tv]
+        from pyvc.sym import has_ite
+        tv = [x.at(0) if isinstance(x, Seq) else x for x in tv]
+        if not any(has_ite(x) for x in tv):
+            pats = [z3.MultiPattern(*tv) if len(tv) > 1 else tv[0]]
+    full = z3.Implies(z3.And(*guard), body) if guard else body
+    return z3.ForAll(vs, full, patterns=pats) if pats else z3.ForAll(vs, full)
 
 
 def sp_implies(ex, e, st):
@@ -266,8 +279,42 @@ def sp_is_dna(ex, e, st):
     return s.forall(lambda v: z3.Or(v == 65, v == 67, v == 71, v == 84), lo, hi)
 
 
+def sp_nsucc(ex, e, st):
+    """nsucc(X, v, k): number of the four shift successors of v that are marked (non-zero) in the 0/1 array X."""
+    x = _seq(ex.ev(e.args[0], st))
+    v, k = _int(ex.ev(e.args[1], st)), _int(ex.ev(e.args[2], st))
+    q = sp_ipow_val(4, k - 1)
+    base = (v % q) * 4
+    tot = None
+    for j in range(4):
+        t = z3.If(x.at(base + j) != 0, iv(1), iv(0))
+        tot = t if tot is None else tot + t
+    return tot
+
+
+def sp_ipow_val(b, x):
+    lx = lit(x)
+    if lx is not None and lx >= 0:
+        return iv(b ** lx)
+    return specz3.ipow(iv(b), x)
+
+
+def sp_rsum(ex, e, st):
+    """raw sum rsum(a, d, lo, hi) over an array value (lemma language)."""
+    a = ex.ev(e.args[0], st)
+    d, lo, hi = [_int(ex.ev(x, st)) for x in e.args[1:4]]
+    return specz3.ssum(a, d, lo, hi)
+
+
+def sp_accepts(ex, e, st):
+    """accepts(filter, i, k): verdict of the (abstract) filter on the i-th k-mer."""
+    from pyvc import library
+    f = ex.ev(e.args[0], st)
+    return library.VERDICT(f.fields["__id__"], _int(ex.ev(e.args[2], st)), _int(ex.ev(e.args[1], st)))
+
+
 SPEC = {
     "forall": sp_forall, "exists": lambda ex, e, st: sp_forall(ex, e, st, exists=True), "implies": sp_implies, "old": sp_old,
     "digits": sp_digits, "val": sp_val, "dval": sp_dval, "val2": sp_val2, "canon": sp_canon, "ipow": sp_ipow, "dig": sp_dig,
-    "same": sp_same_seq, "upd": sp_upd, "code": sp_code, "dnav": sp_dnav, "codes": sp_codes, "is_dna": sp_is_dna, "pv": sp_pv, "store": sp_store, "A": sp_A, "D": sp_D, "P": sp_P, "seq_is": sp_seq_is, "seq_is_cons": sp_seq_is_cons, "ite": sp_ite, "isnone": sp_isnone, "cnt": sp_cnt, "ssum": sp_ssum,
+    "same": sp_same_seq, "upd": sp_upd, "accepts": sp_accepts, "nsucc": sp_nsucc, "rsum": sp_rsum, "code": sp_code, "dnav": sp_dnav, "codes": sp_codes, "is_dna": sp_is_dna, "pv": sp_pv, "store": sp_store, "A": sp_A, "D": sp_D, "P": sp_P, "seq_is": sp_seq_is, "seq_is_cons": sp_seq_is_cons, "ite": sp_ite, "isnone": sp_isnone, "cnt": sp_cnt, "ssum": sp_ssum,
 }
